@@ -98,7 +98,6 @@ CSRMatrix* readMatrix(const char* filename)
         for (int32_t i = 0; i < nnz; i++)
         {
             ifs.read(reinterpret_cast<char *>(&val), sizeof_dbl);
-            endian_swap(&val);
             A->vals.emplace_back(val);
         }
     }
